@@ -95,6 +95,7 @@ def gen(repo):
     if not copy:
         raise TranslateError("send(): the payload copy `ByteBuffer b(n); memcpy(b.data(), data, n)` was not recognised")
     n_enq = len(re.findall(r"\benqueue\s*\(", snd))
+    n_loops = len(re.findall(r"\b(?:while|for|do)\b", re.sub(r'"(?:[^"\\\\]|\\\\.)*"', '""', snd)))        # one accepted send = one command: no chunking loop
 
     # ---- doSend: requeue of the unsent tail, and where whole payloads go
     ds = cxxscan.function_body(esrc, "doSend")
@@ -203,6 +204,8 @@ def gen(repo):
     t += "def sendEmptyReturns : String := \"%s\"\n" % (m0.group(1) if m0 else "")
     t += "def sendCopyLength : List String := %s\n" % _lean_strs([copy.group(2), copy.group(3)])
     t += "def sendEnqueueCalls : Nat := %d\n" % n_enq
+    t += "/-- `TcpEngine::send`: number of loop statements (a payload is never queued in pieces) -/\n"
+    t += "def sendLoopCount : Nat := %d\n" % n_loops
     t += "/-- `doSend`: for each short-write branch the offset added to `payload.begin()` and the end iterator of the requeued tail -/\n"
     t += "def doSendTailOffsets : List String := %s\n" % _lean_strs([a.strip() for a, _ in tails])
     t += "def doSendTailEnds : List String := %s\n" % _lean_strs([b for _, b in tails])
